@@ -55,7 +55,7 @@ def consist_rollup_case(comp, policy="RESGreedy", n=2):
     ]
     return Case(f"consist_rollup_{comp}_{policy}", "C11", "Consist", t, CONSIST_STEP(), assume, claims,
                 bounds={"composition": comp, "policy": policy, "efficiency map points": n, "steps": "1 solve_step sequence from an arbitrary pre-state"},
-                stubs={"utils::interp1d": interp1d_contract, "utils::interp3d": interp3d_contract}, max_paths=60000, timeout_ms=120000, check_side=False,
+                stubs={"utils::interp1d": interp1d_contract, "utils::interp3d": interp3d_contract}, max_paths=60000, timeout_ms=300000, check_side=False,
                 notes=["efficiency-map interpolations replaced by their contracts (C08); derating tables executed exactly",
                        "NaN/inf side conditions are not re-checked here (they are discharged by the component and locomotive harnesses of C01/C08/C09)"])
 
@@ -101,7 +101,34 @@ def consist_getters_case(comp):
     return [c1, c2]
 
 
+def speed_limit_wheel_power_case(dtv=1, mass=1000):
+    """SpeedLimitTrainSim::solve_required_pwr: the wheel power the train demands stays inside what the consist published, and the
+    cumulative wheel energy and its positive / negative parts are advanced by exactly that power"""
+    import slstep
+    recv = slstep.sl_step_recv(True, dtv, mass)
+    dt = lambda c: c.pre["state.dt"]
+    p1 = lambda c: c.post["state.pwr_whl_out"]
+    pos_max = lambda c: MIN(c.S["cs_pwr_out_max"], MAX(0, c.pre["state.pwr_whl_out"] + c.S["cs_pwr_rate_out_max"] * dt(c)))
+    claims = [
+        Claim("wheel power demanded <= the consist's published traction limit (and its ramp limit)", lambda c: LE(p1(c), pos_max(c)), when="ok", role="sl_pwr_le_pos_max"),
+        Claim("braking power demanded from the consist <= its published dynamic braking limit", lambda c: LE(-p1(c), MAX(c.S["cs_pwr_dyn_brake_max"], 0)), when="ok", role="sl_pwr_ge_neg_max"),
+        Claim("cumulative wheel energy advances by wheel power * step size", lambda c: EQ(c.post["state.energy_whl_out"], c.pre["state.energy_whl_out"] + p1(c) * dt(c)), when="ok", role="sl_energy_whl"),
+        Claim("positive / negative parts advance by the positive / negative part of that energy",
+              lambda c: AND(EQ(c.post["state.energy_whl_out_pos"], c.pre["state.energy_whl_out_pos"] + MAX(p1(c), 0) * dt(c)),
+                            EQ(c.post["state.energy_whl_out_neg"], c.pre["state.energy_whl_out_neg"] + MAX(-p1(c), 0) * dt(c))), when="ok", role="sl_energy_parts"),
+        Claim("no_panic", None, when="nopanic", role="sl_no_panic"),
+    ]
+    return Case(f"speed_limit_step_wheel_power_dt{dtv}_m{mass}".replace(".", "p"), "C11", "SpeedLimitTrainSim", recv, [Call("SpeedLimitTrainSim::solve_required_pwr", [])],
+                lambda S: slstep.sl_step_domain(S, True), claims,
+                bounds={"braking points": 2, "consist": "one DummyLoco", "steps": "1 from an arbitrary state (inductive)", "step size": f"{dtv} s (concrete)", "train mass": f"{mass} kg (concrete)"},
+                max_paths=20000, timeout_ms=60000, check_side=False)
+
+
 def m_cases(tier):
+    return [speed_limit_wheel_power_case()] + _m_cases(tier)
+
+
+def _m_cases(tier):
     cs = [consist_rollup_case("C"), consist_rollup_case("B"), consist_rollup_case("C", "Proportional"), train_to_consist_case(1, 2), train_to_consist_case(2, 3)]
     cs += consist_getters_case("CB") + consist_getters_case("BCB")
     if tier == "thorough":
